@@ -182,9 +182,36 @@ def systematic_cases():
     return out
 
 
+def alias_cases():
+    """operand types under a NAME (`%A = type <4 x i32>`) at the positions whose type does not become the result type: the result must be the plain type
+    LLVM computes, never a type that inherits the operand's name"""
+    A, B = "N4130", "N4231"          # %A0, %B1
+    out = []
+    for v in ("V4(i32)", "S2(i64)", "V2(p0(i8))"):
+        out.append(("icmp", ["%s(%s)" % (A, v)] * 2))
+    for v in ("V4(f2)", "S2(f1)"):
+        out.append(("fcmp", ["%s(%s)" % (A, v)] * 2))
+    out.append(("select", ["%s(V2(i1))" % A, "V2(i32)", "V2(i32)"]))
+    out.append(("select", ["%s(i1)" % A, "i64", "i64"]))
+    for sc in ("V", "S"):
+        out.append(("extractelement", ["%s(%s4(i32))" % (A, sc), "%s(i32)" % B]))
+        out.append(("insertelement", ["%s4(i32)" % sc, "%s(i32)" % A, "%s(i64)" % B]))
+        out.append(("shufflevector", ["%s4(i32)" % sc, "%s4(i32)" % sc, "%s(%s2(i32))" % (A, sc)]))
+        out.append(("shufflevector", ["%s(%s4(f1))" % (A, sc)] * 2 + ["%s(%s8(i32))" % (B, sc)]))
+    for op in ("trunc", "zext", "fptosi", "sitofp", "ptrtoint", "bitcast", "addrspacecast"):
+        a, b = CASTS[op]
+        out.append(("cast:" + op, ["%s(%s)" % (A, a), b]))
+        out.append(("cast:" + op, ["%s(V4(%s))" % (A, a), "V4(%s)" % b]))
+    out.append(("load", ["i32", "%s(p0(i32))" % A]))
+    out.append(("load", ["V4(f1)", "%s(p1(V4(f1)))" % A]))
+    out.append(("extractvalue:1", ["%s(s(i32,V2(i8)))" % A]))
+    out.append(("extractvalue:0.1", ["%s(a2(s(i8,i64)))" % A]))
+    return out
+
+
 def gen(tier, rng, harness, driver):
     n = 700 if tier == "quick" else 60000
-    cases = systematic_cases() + [gen_case(rng) for _ in range(n)]
+    cases = systematic_cases() + alias_cases() + [gen_case(rng) for _ in range(n)]
     spec = C.run_lines([driver], ["typ.spec %s %s" % (k, " ".join(ts)) for k, ts in cases], shards=8)
     lines = []
     for (k, ts), sp in zip(cases, spec):
